@@ -53,10 +53,23 @@ def run_spec(ctx, rep, spec, model, only=None):
     from amr_kitchen import PlotfileCooker
     path = ctx.newdir("c19_")
     truth = plotgen.materialize(spec, path)
+    if spec.get("path_form") == "symlink":
+        path = ctx.via_symlink(path); rep.count("path-through-symlink-and-dotdot")
     names = dedup_names(spec["fields"])
     nf = len(spec["fields"])
     with quiet():
         pck = PlotfileCooker(path)
+        if spec.get("compared_first"):
+            # the same mesh with its boxes listed in another order, and a comparison of the two readers, before any query
+            import copy
+            other = copy.deepcopy(spec)
+            for l in other["levels"]:
+                l.reverse()
+            other["layout"] = plotgen.random_layout(ctx.rng, other["levels"], "scatter")
+            opath = ctx.newdir("c19o_"); plotgen.materialize(other, opath)
+            po = PlotfileCooker(opath)
+            _ = (pck == po); _ = (po != pck)
+            rep.count("reader-compared-with-another-before-queries")
     feats = plotgen.describe(spec)
     pts = interior_points(spec, ctx.rng) if only is None else [only]
     reqs, pend = [], []
@@ -161,6 +174,12 @@ def run(ctx, rep, model=True):
         if i % 3 == 2:
             spec["data"]["field_scale"] = [1e5, 1e-12, 3e-7]        # e.g. pressure next to radical mass fractions
             rep.count("fields-of-very-different-magnitudes")
+        if i % 4 == 2: spec["path_form"] = "symlink"
+        if i % 3 == 1:
+            for l in spec["levels"]:
+                ctx.rng.shuffle(l)
+            spec["layout"] = plotgen.random_layout(ctx.rng, spec["levels"], "scatter")
+            spec["compared_first"] = True
         if i % 6 == 3 and len(spec["levels"]) >= 2:
             # a domain whose lower corner is fractional and whose level-1 cell centres are whole numbers
             spec["geo_low"] = [-3.5, 0.5, -1.5]; spec["dx0"] = [2.0, 2.0, 2.0]
